@@ -28,6 +28,11 @@ func Unmarshal(b []byte, ty cty.Type) (cty.Value, error) {
 }
 
 func unmarshal(dec *msgpack.Decoder, ty cty.Type, path cty.Path) (cty.Value, error) {
+	if len(path) > maxNestingDepth {
+		// Dynamically-typed values describe their own types, so the depth
+		// of the decoding recursion is otherwise decided by the input.
+		return cty.DynamicVal, path.NewErrorf("exceeded maximum nesting depth of %d", maxNestingDepth)
+	}
 	peek, err := dec.PeekCode()
 	if err != nil {
 		return cty.DynamicVal, path.NewError(err)
@@ -344,32 +349,47 @@ func unmarshalObject(dec *msgpack.Decoder, atys map[string]cty.Type, path cty.Pa
 }
 
 func unmarshalDynamic(dec *msgpack.Decoder, path cty.Path) (cty.Value, error) {
-	length, err := dec.DecodeArrayLen()
-	if err != nil {
-		return cty.DynamicVal, path.NewError(err)
-	}
+	// A dynamic value that describes itself as dynamically-typed just wraps
+	// another dynamic value, so we unwrap those in a loop rather than by
+	// recursion: the nesting depth is decided by the input alone.
+	for {
+		length, err := dec.DecodeArrayLen()
+		if err != nil {
+			return cty.DynamicVal, path.NewError(err)
+		}
 
-	switch {
-	case length == -1:
-		return cty.NullVal(cty.DynamicPseudoType), nil
-	case length != 2:
-		return cty.DynamicVal, path.NewErrorf(
-			"dynamic value array must have exactly two elements",
-		)
-	}
+		switch {
+		case length == -1:
+			return cty.NullVal(cty.DynamicPseudoType), nil
+		case length != 2:
+			return cty.DynamicVal, path.NewErrorf(
+				"dynamic value array must have exactly two elements",
+			)
+		}
 
-	typeJSON, err := dec.DecodeBytes()
-	if err != nil {
-		return cty.DynamicVal, path.NewError(err)
-	}
-	var ty cty.Type
-	err = (&ty).UnmarshalJSON(typeJSON)
-	if err != nil {
-		return cty.DynamicVal, path.NewError(err)
-	}
-	// A type description can include optional attribute annotations, but
-	// the type of a value must never carry them.
-	ty = ty.WithoutOptionalAttributesDeep()
+		typeJSON, err := dec.DecodeBytes()
+		if err != nil {
+			return cty.DynamicVal, path.NewError(err)
+		}
+		var ty cty.Type
+		err = (&ty).UnmarshalJSON(typeJSON)
+		if err != nil {
+			return cty.DynamicVal, path.NewError(err)
+		}
+		// A type description can include optional attribute annotations, but
+		// the type of a value must never carry them.
+		ty = ty.WithoutOptionalAttributesDeep()
 
-	return unmarshal(dec, ty, path)
+		if ty != cty.DynamicPseudoType {
+			return unmarshal(dec, ty, path)
+		}
+
+		peek, err := dec.PeekCode()
+		if err != nil {
+			return cty.DynamicVal, path.NewError(err)
+		}
+		if msgpackCodes.IsExt(peek) {
+			return unmarshalUnknownValue(dec, ty, path)
+		}
+	}
 }
